@@ -41,7 +41,9 @@ def main():
         r = sh("sh %s/demo.sh" % os.path.basename(mdir), cwd=d)
         res["demo_mutant_rc"] = r.returncode
         res["demo_mutant_tail"] = (r.stdout + r.stderr)[-400:]
-        r = sh("make -j4 check", cwd=d, timeout=3600)
+        # the suite's scripts share /tmp/lhasa-test.* names: give every confirmation its own TMPDIR
+        os.makedirs(d + "/.tmp", exist_ok=True)
+        r = sh("TMPDIR=%s/.tmp make -j4 check" % d, cwd=d, timeout=3600)
         out = r.stdout + r.stderr
         res["suite_pass"] = "# PASS:  10" in out and "# FAIL:  0" in out
         ok = (res["build_clean"] and res["applies"] and res["build_mutant"] and res["demo_clean_rc"] == 0
